@@ -5,6 +5,7 @@ package main
 
 import (
 	"fmt"
+	"math/big"
 	"regexp"
 	"strings"
 )
@@ -23,6 +24,9 @@ func init() {
 		replayGen{match: func(o *Obligation) bool {
 			return strings.HasPrefix(o.Name, "(*consensus.ForkResolver).applyFork/pre/(*blockchain.Blockchain).WriteCertificate")
 		}, gen: genApplyForkNilCert},
+		replayGen{match: func(o *Obligation) bool {
+			return strings.HasPrefix(o.Name, "common.NormalizedEpochDuration/post/weekday-is-host-independent")
+		}, gen: genEpochDurationZone},
 	)
 }
 
@@ -236,4 +240,54 @@ func TestVerifReplay(t *testing.T) {
 }
 `, o.Name)
 	return src, "consensus"
+}
+
+// genEpochDurationZone: the epoch length must be the same on every host. The instant and the
+// host's zone offset come from the model (witness terms sec/off); the weekday only depends on the
+// instant modulo one week, so an out-of-range model instant is reduced into the present. The
+// network size is re-derived (NetworkParams is opaque to the solver): the model's size first, then
+// representative sizes.
+func genEpochDurationZone(o *Obligation, P *Program) (string, string) {
+	sec, ok1 := new(big.Int).SetString(inputInt(o, "sec", "0"), 10)
+	if !ok1 {
+		sec = big.NewInt(0)
+	}
+	week := big.NewInt(604800)
+	base := big.NewInt(1700092800) // a Thursday 00:00 UTC, multiple of one week since the epoch
+	m := new(big.Int).Mod(sec, week)
+	secN := new(big.Int).Add(base, m)
+	off := inputInt(o, "off", "0")
+	size := inputInt(o, "networkSize", "5000")
+	v12 := "true"
+	if strings.Contains(o.Inputs["enableUpgrade12"], "false") {
+		v12 = "false"
+	}
+	src := fmt.Sprintf(`package common
+
+import (
+	"fmt"
+	"testing"
+	"time"
+)
+
+// Replay of obligation %s
+func TestVerifReplay(t *testing.T) {
+	instant := time.Unix(%s, 0)
+	host := time.FixedZone("host", %s)
+	for _, size := range []int{%s, 300, 5000, 20000, 200000} {
+		if size < 0 {
+			continue
+		}
+		onHost := NormalizedEpochDuration(instant.In(host), size, %s)
+		onUtc := NormalizedEpochDuration(instant.UTC(), size, %s)
+		if onHost != onUtc {
+			fmt.Printf("VERIF-REPLAY-VIOLATION: epoch after the validation at %%v (network size %%d) lasts %%v on a host at UTC%%+dh but %%v on a UTC host\n", instant.UTC(), size, onHost, %s/3600, onUtc)
+			t.Fail()
+			return
+		}
+	}
+	fmt.Println("same duration on both hosts")
+}
+`, o.Name, secN.String(), off, size, v12, v12, off)
+	return src, "common"
 }
